@@ -106,7 +106,7 @@ def collidable (c : Cfg) (i : Inst) : Bool := tri c.collideIfRandom c.collideIfT
 def mayOcclude (c : Cfg) (i : Inst) : Bool := tri c.occludeIfRandom c.occludeIfTrue c.occludeIfFalse i.occludingStatic
 
 def instAt (insts : List Inst) (i : Nat) : Inst :=
-  insts.getD i ⟨false, some true, true, some false, false, none, none⟩
+  insts.getD i ⟨false, none, true, some false, false, none, none⟩
 
 /-- all pairs `(x, y)` with `x` before `y` — `itertools.combinations(l, 2)` -/
 def pairs : List Nat → List (Nat × Nat)
